@@ -22,16 +22,30 @@ Qed.
 Lemma in01_Qin01 : forall x, in01 QOps Qle x <-> Qin01 x.
 Proof. intros x. unfold in01, Qin01. cbn. tauto. Qed.
 
+(* the table is non-increasing in [0,1] for any non-negative weights (the last entry is
+   clipped like the others since the repair) *)
 Theorem sf_monotone_range_Q : forall m bg d,
-  bg_nonneg bg -> Qsum bg <= 1 -> build QOps m bg = Ok d ->
-  length (d_sf d) = (length m * cdf_range + 1)%nat /\ noninc Qle (d_sf d) /\ Forall Qin01 (d_sf d).
+  bg_nonneg bg -> build QOps m bg = Ok d ->
+  length (d_sf d) = (length m * cdf_range + 1)%nat /\ noninc Qle (d_sf d) /\ Forall Qin01 (d_sf d) /\
+  (0 <= d_min d)%Z.
 Proof.
-  intros m bg d Hbg Hm H. destruct (build_Q_table m bg d Hbg Hm H) as (Hl & Hsf & Hok & Hld & _).
+  intros m bg d Hbg H. apply build_Q_inv in H.
+  destruct H as (offset & scale & pdf & Ha & Hlen & Hdata & Hpdf & Hsurv & Hsc & Hoff & Hrows).
+  apply stage_a_Q in Ha. pose proof (data_row_ok m offset scale Ha) as Hok. rewrite <- Hdata in Hok.
+  assert (length (d_data d) = length m) as Hld by (rewrite Hdata, map_length; reflexivity).
+  destruct (pdf_of_pointwise bg (d_data d) pdf Hok Hpdf) as (Hlp & Hpw & Hsup). rewrite Hld in Hlp.
   pose proof (tailD_facts bg (d_data d) Hbg Hok) as [Hanti _ _ _].
-  split; [exact Hl|]. split.
-  - apply noninc_of_nth. intros j Hj. rewrite (Hsf (S j)) by lia. rewrite (Hsf j) by lia. apply Hanti. lia.
-  - apply Forall_nth. intros i x0 Hi. rewrite (nth_indep _ x0 0 Hi). unfold Qin01.
-    rewrite (Hsf i Hi). apply tailD_le1; assumption.
+  assert (Forall (Qle (n_zero QOps)) pdf) as Hpos.
+  { apply Forall_nth. intros i x0 Hi. rewrite (nth_indep _ x0 0 Hi). cbn [n_zero QOps].
+    rewrite (Hpw i Hi), pmf_of_tailD. unfold pmfD.
+    assert (tailD (d_data d) bg (Z.of_nat i + 1) <= tailD (d_data d) bg (Z.of_nat i)) by (apply Hanti; lia). lra. }
+  destruct (survival_monotone_range QOps Qle (fun a b c => @Qle_trans a b c)
+              (fun a b Ha0 Hb0 Hb1 => Qmin1_le_one (a + b)) Qmin1_range
+              (fun a b Ha0 Hb0 Hb1 => Qmin1_step a b Ha0 Hb0 Hb1)
+              pdf (d_sf d) (d_min d) (d_max d) Hpos Hsurv) as (Hl & Hn & Hf).
+  split; [congruence|]. split; [exact Hn|]. split.
+  - eapply Forall_impl; [|exact Hf]. intros a Ha0. apply in01_Qin01. exact Ha0.
+  - apply (survival_min pdf _ _ _ Hsurv).
 Qed.
 
 (* ---------- p-values are non-increasing in the score ---------- *)
@@ -41,34 +55,39 @@ Lemma d_scale_Q_mono : forall d s1 s2 r1 r2,
   d_scale QOps d s1 = Ok r1 -> d_scale QOps d s2 = Ok r2 -> (r1 <= r2)%Z.
 Proof.
   intros d s1 s2 r1 r2 Hsc Hs H1 H2. unfold d_scale in *.
-  destruct (d_wo d) as [wo| | |]; cbn [rbind] in *; try discriminate.
-  inversion H1; inversion H2; subst. cbn.
+  inversion H1; inversion H2; subst. cbn [n_round_i32 n_mul n_sub QOps].
   apply clamp_i32_mono, Qround_away_mono. apply Qmult_le_compat_r; [lra|exact Hsc].
 Qed.
 
-Lemma build_Q_scale_nonneg : forall m bg d, build QOps m bg = Ok d -> 0 <= d_scale_f d.
+Lemma build_Q_scale_pos : forall m bg d, build QOps m bg = Ok d -> 0 < d_scale_f d.
 Proof.
   intros m bg d H. apply build_Q_inv in H.
   destruct H as (offset & scale & pdf & Ha & _ & _ & _ & _ & Hsc & _). apply stage_a_Q in Ha.
-  destruct Ha as (_ & _ & H0 & _). rewrite Hsc. exact H0.
+  destruct Ha as (_ & H0 & _). rewrite Hsc. exact H0.
+Qed.
+
+Lemma sf_nonempty : forall m bg d, bg_nonneg bg -> build QOps m bg = Ok d -> d_sf d <> [].
+Proof.
+  intros m bg d Hbg H. destruct (sf_monotone_range_Q m bg d Hbg H) as (Hl & _).
+  intros C. rewrite C in Hl. cbn in Hl. lia.
 Qed.
 
 Theorem pvalue_monotone_Q : forall m bg d s1 s2 p1 p2,
-  bg_nonneg bg -> Qsum bg <= 1 -> build QOps m bg = Ok d -> s1 <= s2 ->
+  bg_nonneg bg -> build QOps m bg = Ok d -> s1 <= s2 ->
   d_pvalue QOps d s1 = Ok p1 -> d_pvalue QOps d s2 = Ok p2 -> p2 <= p1.
 Proof.
-  intros m bg d s1 s2 p1 p2 Hbg Hm H Hs H1 H2.
-  destruct (sf_monotone_range_Q m bg d Hbg Hm H) as (_ & Hn & Hf).
-  destruct (build_Q_table m bg d Hbg Hm H) as (_ & _ & _ & _ & Hmin & _).
-  pose proof (build_Q_scale_nonneg m bg d H) as Hsc.
-  rewrite (d_pvalue_idx QOps) in H1, H2.
+  intros m bg d s1 s2 p1 p2 Hbg H Hs H1 H2.
+  destruct (sf_monotone_range_Q m bg d Hbg H) as (_ & Hn & Hf & Hmin).
+  pose proof (sf_nonempty m bg d Hbg H) as Hne.
+  pose proof (build_Q_scale_pos m bg d H) as Hsc.
+  rewrite (d_pvalue_idx QOps) in H1, H2 by exact Hne.
   apply rbind_ok in H1. destruct H1 as (r1 & Hr1 & E1). apply rbind_ok in H2. destruct H2 as (r2 & Hr2 & E2).
   inversion E1; inversion E2; subst.
   assert (Forall (in01 QOps Qle) (d_sf d)) as Hf'.
   { eapply Forall_impl; [|exact Hf]. intros a Ha. apply in01_Qin01. exact Ha. }
-  assert (r1 <= r2)%Z as Hr by exact (d_scale_Q_mono d s1 s2 r1 r2 Hsc Hs Hr1 Hr2).
+  assert (r1 <= r2)%Z as Hr by exact (d_scale_Q_mono d s1 s2 r1 r2 (Qlt_le_weak _ _ Hsc) Hs Hr1 Hr2).
   apply (pv_idx_mono QOps Qle (fun a b c => @Qle_trans a b c) d r1 r2
-           (fun x _ => Qle_refl x)); try assumption; cbn; lra.
+           (fun x _ => Qle_refl x)); try assumption. cbn. lra.
 Qed.
 
 (* ---------- discretisation error ---------- *)
